@@ -325,7 +325,38 @@ def file_target_classes_problems():
     return problems
 
 
+IGN_DOC = "".join([
+    '<http://ex.org/a> <http://www.w3.org/1999/02/22-rdf-syntax-ns#type> <http://ex.org/C> .\n',
+    '<http://ex.org/a> <http://o.org/p> "x" .\n', '<http://ex.org/a> <http://o.org/c/q> "y" .\n', '<http://ex.org/a> <http://k.org/r> <http://ex.org/z> .\n',
+    '<http://ex.org/b> <http://www.w3.org/1999/02/22-rdf-syntax-ns#type> <http://ex.org/C> .\n',
+    '<http://ex.org/b> <http://o.org/p> "x" .\n', '<http://ex.org/b> <http://k.org/r> <http://ex.org/z> .\n'])
+
+
+def ignore_lists_problems():
+    """several extractions in one process with different namespaces_to_ignore lists: each equals the extraction from the document with those triples deleted
+    (class membership kept) - no decision of an earlier run may leak into a later one."""
+    from shexer.shaper import Shaper
+    problems = []
+
+    def direct_child(p, ns):
+        return p.startswith(ns) and "/" not in p[len(ns):] and "#" not in p[len(ns):]
+    lists = [["http://o.org/"], ["http://k.org/"], ["http://o.org/c/"], ["http://o.org/", "http://k.org/"], ["http://x.org/"], ["http://o.org/c/", "http://o.org/"]]
+    for nsl in lists + lists[:2]:
+        kept = []
+        for line in IGN_DOC.strip().split("\n"):
+            pred = line.split(" ")[1][1:-1]
+            if "rdf-syntax-ns#type" in pred or not any(direct_child(pred, ns) for ns in nsl):
+                kept.append(line)
+        got = Shaper(raw_graph=IGN_DOC, all_classes_mode=True, namespaces_to_ignore=list(nsl), instances_report_mode="abs").shex_graph(string_output=True)
+        want = Shaper(raw_graph="\n".join(kept) + "\n", all_classes_mode=True, instances_report_mode="abs").shex_graph(string_output=True)
+        if got != want:
+            problems.append("namespaces_to_ignore=%r (after other lists in the same process) differs from deleting the triples:\n%s\n---\n%s" % (nsl, got, want))
+    return problems
+
+
 def _history_more(name):
+    if name == "ignore-several-lists":
+        return ignore_lists_problems()
     if name == "all-classes-plus-shape-map":
         return mixed_mode_problems()
     if name == "file-target-classes":
